@@ -1,9 +1,9 @@
 SPECIFICATION Spec
 CONSTANTS
-  Configs <- CfgsAll
+  Configs <- CfgsMix
   Heads <- HeadsOps
-  Levels <- LevelsA
-  Calls <- CallsA
+  Levels <- LevelsB
+  Calls <- CallsB
   TextBytes = {0, 2, 97}
   MaxText = 3
   Ops = {"abort", "set", "log"}
